@@ -740,6 +740,39 @@ def check_identity_keys_use_printed_values(ctx, d) -> None:
     ctx.ob(RID, d.tree, True, "%d values placed into identity keys inspected" % n, construct="identity keys of dsl.py", trivial=True)
 
 
+def check_foreign_exception_funnels(ctx, d) -> None:
+    """R19: a handler that turns the TEXT of the caught exception into a new located error (underlying_error=<SomeError>(f".. {e}")) is the
+    funnel through which exceptions of foreign code (KeyError from the scope book, TypeError ..) become part of the DSLInvalidError.  It must
+    catch Exception: narrowed to one class, everything else leaves namespace_to_flowir as a raw exception, which neither
+    DSLExperimentConfiguration nor the callers convert."""
+    RID = "C06.R19-foreign-exceptions-are-funnelled"
+    n = 0
+    for q, f in d.functions.items():
+        for t in [x for x in source.walk_own(f) if isinstance(x, ast.Try)]:
+            for h in t.handlers:
+                if h.name is None:
+                    continue
+                rewraps = False
+                for c in [c for st in h.body for c in ast.walk(st) if isinstance(c, ast.Call) and (call_name(c) or "").endswith("DSLInvalidFieldError")]:
+                    ue = next((k.value for k in c.keywords if k.arg == "underlying_error"), c.args[1] if len(c.args) > 1 else None)
+                    # a NEW exception object built from the text of the caught one
+                    if isinstance(ue, ast.Call) and any(isinstance(y, ast.Name) and y.id == h.name for y in ast.walk(ue)):
+                        rewraps = True
+                if not rewraps:
+                    continue
+                n += 1
+                ctx.analysed(f)
+                names = [source.src(x).split(".")[-1] for x in (h.type.elts if isinstance(h.type, ast.Tuple) else [h.type])] if h.type is not None else ["*"]
+                ok = bool(set(names) & {"Exception", "BaseException", "*"})
+                ctx.ob(RID, h, ok,
+                       "%s: the handler that re-wraps foreign exceptions into a located error catches Exception" % q if ok else
+                       "%s: the handler that turns the text of a caught exception into a located error catches %s only: any other exception raised while a "
+                       "field is resolved (a KeyError from the scope book when '%%(replica)s' is forwarded into a non-replicating component) leaves "
+                       "namespace_to_flowir as a raw exception instead of a DSLInvalidError that lists the offending location" % (q, "/".join(names)),
+                       construct="%s: foreign exceptions become located errors" % q)
+    ctx.floor(RID, n, 1, "handlers of dsl.py that re-wrap the text of a caught exception into a located error")
+
+
 def run(ctx) -> None:
     ctx.explanation = (
         "Rejection clause and structural parts of the DSL 2.0 compiler: explicit-raise escape analysis of "
@@ -785,6 +818,8 @@ def run(ctx) -> None:
              "(or a caller reads its list afterwards): an error must not be recorded into a list that is thrown away")
     ctx.rule("C06.R18-identity-keys-use-printed-values", "a helper of dsl.py whose result keys a mapping (the table of known environments) puts the printed "
              "form (str/repr) of the values into that key: raw values compare with Python's equality (1 == True == 1.0) and merge different environments")
+    ctx.rule("C06.R19-foreign-exceptions-are-funnelled", "a handler of dsl.py that re-wraps the text of the caught exception into a new located error is the funnel "
+             "for exceptions of foreign code and catches Exception (an invalid namespace is rejected with DSLInvalidError, not with a raw KeyError)")
     ctx.rule("C06.R4-unique-names", "component names are numbered over the ordered components and every name is checked against the names already used")
     ctx.assume("implicit exceptions (KeyError, pydantic internals) are outside the model; FlowIRConcrete mutators called on the freshly built "
                "description are assumed not to raise except FlowIRComponentExists, which R4 excludes")
@@ -1034,6 +1069,7 @@ def run(ctx) -> None:
     check_producer_walk_terminates(ctx, d)
     check_recorded_errors_are_read(ctx, d)
     check_identity_keys_use_printed_values(ctx, d)
+    check_foreign_exception_funnels(ctx, d)
 
     # ---------------- R6 -------------------------------------------------------------------------------
     sp = d.func("OutputReference.split")
